@@ -39,6 +39,6 @@ TEXT["C20"] = dict(level_text="Exploration: every entry point is called on raw r
                    "(shared mode read at call begin, all interleavings) is model-checked exhaustively in MC_Conc with a negative control.",
                    level_note="Freedom from data races is observed by the Go race detector on the recorded executions (instrumentation on the implementation side of the binding); interleavings of the real code are sampled, not enumerated: the library has no synchronisation points at which a scheduler gate could be placed.",
                    design_ref="DESIGN.md §6 C20", technique="TLC-exhaustive interleaving model (MC_Conc) + TLC trace validation of sequential and concurrent recorded calls (race-detector build)")
-for _p in ("C01", "C02", "C03", "C04", "C06", "C08", "C11", "C12", "C19"):
+for _p in ("C01", "C02", "C03", "C04", "C06", "C07", "C08", "C09", "C11", "C12", "C16", "C17", "C19"):
     TEXT[_p]["technique"] += "; TLC-simulated behaviours of the Calc state machine replayed into the code step by step"
 NOT_APPLICABLE = []
